@@ -440,7 +440,7 @@ func (c *Ctx) Enumerate(name string) *Part {
 	var viol []explore.Violation
 	violCount := 0
 	for _, r := range results {
-		p.Executions += r.Cases
+		p.Executions += r.Cases + r.Trans
 		p.Nontrivial += r.Nontrivial
 		p.States += r.States
 		p.Transitions += r.Trans
